@@ -140,13 +140,23 @@ theorem pullLoop_step {pos : Nat} {k : FaultKind} : ∀ fuel c p acc w, Plan pos
     simp only [StepT, StepQ, Step] at i3 ih
     simp only [pullLoop]
     repeat' split
-    all_goals (simp only [StepT, StepQ, Step]; grind)
+    all_goals (simp only [StepQ, Step]; grind)
+
+/-- the outcome is an error with the root the plan must surface as -/
+def IsErr (k : FaultKind) : Outcome → Prop
+  | .err e _ => e = expectedRoot k
+  | _ => False
+
+@[simp, grind =] theorem IsErr_err {k : FaultKind} {e : Root} {d : List V} :
+    IsErr k (.err e d) = (e = expectedRoot k) := rfl
+@[simp, grind =] theorem IsErr_ok {k : FaultKind} {d : List V} : IsErr k (.ok d) = False := rfl
+@[simp, grind =] theorem IsErr_oof {k : FaultKind} : IsErr k .oof = False := rfl
 
 /-- `consume`: if the ghost flag changed during the run, the outcome is the injected failure (or oof) -/
 theorem consume_step {pos : Nat} {k : FaultKind} (fuel : Nat) (c : Consumer) (p : Pipe) (w : World)
     (h : Plan pos k w) :
     (consume fuel c p w).1 = .oof ∨ (consume fuel c p w).2.2.fired = w.fired ∨
-      ∃ d, (consume fuel c p w).1 = .err (expectedRoot k) d := by
+      IsErr k (consume fuel c p w).1 := by
   have i1 := (allStep pos k fuel).openP
   have i2 := pullLoop_step (pos := pos) (k := k) fuel
   simp only [StepT, StepQ, Step] at i1 i2
